@@ -135,6 +135,7 @@ type GhostVar struct {
 }
 
 type AxiomDecl struct {
+	Pkg  string // package whose identifiers the axiom may name
 	Name string
 	Vars []QVar
 	Expr Expr
@@ -886,7 +887,7 @@ func parseSpecFile(path, pkg string) (*SpecFile, error) {
 			if err != nil {
 				return nil, fail(l, "%v", err)
 			}
-			sf.Axioms = append(sf.Axioms, &AxiomDecl{Name: strings.TrimSpace(rest[:c]), Expr: e, Src: rest})
+			sf.Axioms = append(sf.Axioms, &AxiomDecl{Name: strings.TrimSpace(rest[:c]), Expr: e, Src: rest, Pkg: pkg})
 		case "lockinv":
 			// lockinv Struct.mutex(self): expr
 			c := strings.Index(rest, "):")
